@@ -85,6 +85,12 @@ static int c11_gm_resize_noise() {
     return (ok1 && ok2 && ok3) ? 0 : 1;
 }
 
+static int c11_concat_components() {
+    ParticleSet a(2, 2), b(3, 2); a += b;
+    std::printf("C11: ParticleSet(2,2) += ParticleSet(3,2): components=%zu state cols=%ld mean cols=%ld cov cols=%ld weights=%ld\n", a.components, (long)a.state().cols(), (long)a.mean().cols(), (long)a.covariance().cols(), (long)a.weight().size());
+    return (a.components == 5 && a.state().cols() == 5) ? 0 : 1;
+}
+
 static int c14_wna_noise() {
     int bad = 0;
     for (auto d : {WhiteNoiseAcceleration::Dim::OneD, WhiteNoiseAcceleration::Dim::TwoD, WhiteNoiseAcceleration::Dim::ThreeD}) {
@@ -208,6 +214,7 @@ int main(int argc, char** argv) {
     if (w == "c13_skip_throws") return c13_skip_throws();
     if (w == "c11_particleset_resize") return c11_particleset_resize();
     if (w == "c11_gm_resize_noise") return c11_gm_resize_noise();
+    if (w == "c11_concat_components") return c11_concat_components();
     if (w == "c14_wna_noise") return c14_wna_noise();
     if (w == "c14_linearmodel_noise") return c14_linearmodel_noise();
     if (w == "c16_transition") return c16_transition();
